@@ -224,7 +224,11 @@ func (g *streamGen) signal(kind string, allowNext bool, maxAt int) *Sig {
 	if t.Chance(3, 4) {
 		s.At = 1 + t.Draw(maxAt)
 	}
-	switch t.Weighted(6, 2, 2, 1, 1, 1, 1, 1, 1, 1) {
+	switch t.Weighted(6, 2, 2, 1, 1, 1, 1, 1, 1, 1, 1, 1) {
+	case 10:
+		s.Via = "ifelse"
+	case 11:
+		s.Via = "elseif"
 	case 9:
 		s.Via = "forinit"
 	case 7:
